@@ -211,7 +211,7 @@ pub fn scaled_bases(thorough: bool) -> (Vec<Base>, Value) {
         for p in families::a3(Entropy::Pattern, 5) {
             progs.push((p, "A3"));
         }
-        for p in families::tree(3, 6, 2, &[1, CHUNK, BLOCK + 1], Entropy::Pattern) {
+        for p in families::tree(3, 5, 2, &[1, CHUNK, BLOCK + 1], Entropy::Pattern) {
             progs.push((p, "B"));
         }
     }
